@@ -264,14 +264,14 @@ Record seg := { sg_first : Z; sg_dropped : Z; sg_data : list Z }.
 Record block := { k_nsamp : Z; k_segs : list seg }.
 
 (* AbacoSource.distributeData: framesUsed = len(datacopies[0]) (index panic without channels);
-   every segment is stamped with nextFrameNum, which then advances by framesUsed;
-   block.nSamp = len of a channel's data (the last one written; all are equal) *)
+   block.nSamp = framesUsed; every segment is stamped with nextFrameNum (loaded once), which then
+   advances by framesUsed *)
 Definition distribute_data (next : Z) (b : buffer) : res (Z * block) :=
   match b_data b with
   | [] => Panic
   | d0 :: _ =>
       Ok (next + zlen d0,
-          {| k_nsamp := zlen (last (b_data b) []);
+          {| k_nsamp := zlen d0;
              k_segs := map (fun d => {| sg_first := next; sg_dropped := b_dropped b; sg_data := d |}) (b_data b) |})
   end.
 
